@@ -113,7 +113,7 @@ type Copy struct {
 type Exists struct{ Path Expr }
 type Read struct{ Path Expr }
 type Input struct{ Prompt Expr } // Prompt may be nil
-type AppCall struct { // @prog(args) | @prog2(args)
+type AppCall struct {            // @prog(args) | @prog2(args)
 	Stages []AppStage
 }
 type AppStage struct {
@@ -128,10 +128,10 @@ type Stmt interface{}
 
 type VarDecl struct {
 	Names  []string
-	Short  bool  // a := ...
-	Type   Type  // TVoid when omitted (var a = 1 or short form)
+	Short  bool   // a := ...
+	Type   Type   // TVoid when omitted (var a = 1 or short form)
 	Values []Expr // empty => default value; one multi-call or len(Names) values
-	ErrTy  bool  // render string type as "error"
+	ErrTy  bool   // render string type as "error"
 }
 type Assign struct {
 	Names  []string
